@@ -14,9 +14,15 @@
    computed: the byte-size criterion that decides WHERE a stream is cut into tables (the
    rule for the cuts is checked), the compactions of the Flatten inside PrepareIncremental.
    Incremental runs build the layout of finding F11 (non-empty level above the base level);
-   its witness through the public API runs with every check of this property. *)
+   its witness through the public API runs with every check of this property.
+   Where a streamed VALUE is stored (inline or behind a value pointer) is the placement layer
+   B/StreamWriterPlace.v, at the end of this file: the sorted writer places every value where
+   valueLog.write put it, for every behaviour of the dynamic threshold (VLogPercentile > 0)
+   between the two consultations, hence every streamed value, user meta and expiry is read
+   back unchanged. *)
 From Verif Require Import Bytes Keys Consts Spec Lsm Compact Iter Sys Drop StreamWriter.
 From Verif Require LsmProofs CompactProofs GetProofs MergeProofs C12Proofs DropProofs StreamWriterProofs.
+From Verif Require Codec LogRecord Threshold VlogWrite VlogWriteProofs StreamWriterPlace StreamWriterPlaceProofs.
 Open Scope N_scope.
 Import CompactProofs GetProofs StreamWriterProofs.
 
@@ -118,3 +124,77 @@ Example C26_overlap_rejected :
       [(1, [(1, 2)]); (2, [(2, 1)])] [[]; []; []; [1; 2]] 8 2 = SWOk s' tags
     /\ levels_valid (l_levels (s_db s')) = false.
 Proof. eexists. eexists. split; [vm_compute; reflexivity|reflexivity]. Qed.
+
+(* ---- placement of the streamed values; dynamic value threshold ---- *)
+(* an entry on the StreamWriter path is consulted twice — StreamWriter.Write -> valueLog.write,
+   then sortedWriter.handleRequests — and these are the decisions Threshold.decisions (the
+   function of C06_threshold_consistent) takes along the thresholds in force at the two moments *)
+Theorem C26_placement_decisions : forall vlen t_vlog t_sorted,
+  Threshold.decisions vlen 0 [t_vlog; t_sorted] =
+  [StreamWriterPlace.sw_vlog_skip vlen t_vlog t_sorted; StreamWriterPlace.sw_inline vlen t_vlog t_sorted].
+Proof. exact StreamWriterPlaceProofs.sw_decisions_list. Qed.
+Print Assumptions C26_placement_decisions.
+
+(* for every value length and every pair of live thresholds: the sorted writer's placement
+   decision is valueLog.write's decision (the threshold cached at the first consultation) *)
+Theorem C26_placement_consistent : forall vlen t_vlog t_sorted, (t_vlog <> 0)%Z ->
+  StreamWriterPlace.sw_decisions vlen t_vlog t_sorted = ((vlen <? t_vlog)%Z, (vlen <? t_vlog)%Z).
+Proof. exact StreamWriterPlaceProofs.sw_placement_consistent. Qed.
+Print Assumptions C26_placement_consistent.
+
+(* and with no hypothesis on the thresholds (ValueThreshold = 0 caches nothing): a value that
+   valueLog.write did not write to the value log is never stored as a value pointer *)
+Theorem C26_skipped_value_is_inline : forall vlen t_vlog t_sorted, (0 <= vlen)%Z ->
+  StreamWriterPlace.sw_vlog_skip vlen t_vlog t_sorted = true ->
+  StreamWriterPlace.sw_inline vlen t_vlog t_sorted = true.
+Proof. exact StreamWriterPlaceProofs.sw_skip_inline. Qed.
+Print Assumptions C26_skipped_value_is_inline.
+
+Section StreamedValues.
+  (* value-log file cipher, IVs, headers, rotation limits: arbitrary, as in C06 *)
+  Variable encrypted : bool.
+  Variable xs : bytes -> bytes -> bytes.
+  Variable iv_of hdr_of : N -> bytes.
+  Variable file_size max_entries : N.
+  Hypothesis xs_len : forall iv d, length (xs iv d) = length d.
+  Hypothesis xs_invol : forall iv d, xs iv (xs iv d) = d.
+  Hypothesis xs_stream : forall iv a b, firstn (length a) (xs iv (a ++ b)) = xs iv a.
+  Hypothesis hdr_len : forall f, N.of_nat (length (hdr_of f)) = Consts.c_vlogHeaderSize.
+
+  (* For EVERY sequence of StreamWriter.Write calls (any streams per call, any entries) and
+     EVERY pair of thresholds in force at the two consultations of every entry: in the final
+     value-log state, what Item.yieldItemValue reads through the value struct the sorted writer
+     handed to its table builder is the streamed value, and the struct carries the streamed
+     user meta and expiry.  se_wf: a value that goes to the value log fits a log record; the
+     meta byte of a streamed KV does not carry bitValuePointer.  small: no uint32 wrap. *)
+  Theorem C26_streamed_values_read_back : forall calls st st' psss,
+    VlogWriteProofs.vwf st ->
+    Forall (Forall (Forall StreamWriterPlaceProofs.se_wf)) calls ->
+    StreamWriterPlace.sw_vlog_writes encrypted xs iv_of hdr_of file_size max_entries st calls = (st', psss) ->
+    VlogWriteProofs.small st' ->
+    Forall2 (Forall2 (Forall2 (StreamWriterPlaceProofs.sw_reads_back encrypted xs iv_of st'))) calls psss.
+  Proof. exact (StreamWriterPlaceProofs.sw_streamed_read_back encrypted xs iv_of hdr_of file_size max_entries xs_len xs_invol xs_stream hdr_len). Qed.
+End StreamedValues.
+Print Assumptions C26_streamed_values_read_back.
+
+(* hypotheses satisfiable, and the situation the cache is there for: one Write call with two
+   streams; for the first entry the live threshold DROPS below its value length between
+   valueLog.write (4 < 10: no value-log record) and the sorted writer (live threshold 2): it is
+   stored inline all the same; for the second it RISES: it stays behind its pointer *)
+Example C26_streamed_values_read_back_ex :
+  let e1 := LogRecord.mkEntry [1; 0; 0; 0; 0; 0; 0; 0; 9] [7; 7; 7; 7] 0 1 0 in
+  let e2 := LogRecord.mkEntry [2; 0; 0; 0; 0; 0; 0; 0; 9] [5; 6; 5; 6] 0 2 77 in
+  let c1 := StreamWriterPlace.mkSE e1 10 2 in
+  let c2 := StreamWriterPlace.mkSE e2 2 10 in
+  let hdr := fun _ : N => repeat 0 20 in
+  let '(st, psss) := StreamWriterPlace.sw_vlog_writes false LogRecord.xs_id (fun _ => []) hdr 1048576 1000
+                       (VlogWrite.vlog_init hdr) [[[c1]; [c2]]] in
+  (StreamWriterPlace.se_skip c1, StreamWriterPlace.se_inline c1) = (true, true) /\
+  (StreamWriterPlace.se_skip c2, StreamWriterPlace.se_inline c2) = (false, false) /\
+  psss = [[[Codec.mkVptr 0 0 0]; [Codec.mkVptr 1 22 20]]] /\
+  StreamWriterPlace.sw_read false LogRecord.xs_id (fun _ => []) st c1 (Codec.mkVptr 0 0 0) = Some [7; 7; 7; 7] /\
+  StreamWriterPlace.sw_read false LogRecord.xs_id (fun _ => []) st c2 (Codec.mkVptr 1 22 20) = Some [5; 6; 5; 6] /\
+  (* the zero pointer behind bitValuePointer (what a decision from the live threshold 2 would
+     store for e1) is not read back as the value *)
+  VlogWrite.item_value false LogRecord.xs_id (fun _ => []) st (StreamWriterPlace.sw_value e1 false (Codec.mkVptr 0 0 0)) = None.
+Proof. vm_compute. repeat split; reflexivity. Qed.
